@@ -6,7 +6,7 @@
    here (array and bitmap containers, which is all Add ever produces) are proved
    locally. *)
 Require Import VV.Base VV.BaseProofs VV.Bitmap VV.BitmapLemmas VV.BitmapProofsBits VV.BitmapProofsArr VV.BitmapProofs.
-Require Import VV.Adaptive VV.AdaptiveLemmas.
+Require Import VV.PFOR VV.PFORLemmas VV.Adaptive VV.AdaptiveLemmas.
 From Coq Require Import Lia ZifyBool ZifyN ZifyNat Sorted.
 Local Open Scope N_scope.
 Ltac Zify.zify_post_hook ::= Z.div_mod_to_equations.
@@ -118,14 +118,14 @@ Qed.
 Lemma bits_values_dump bits :
   bm_bits_values (bm_mem_of_bytes (map (bm_mget bits) bm_byte_idx)) = bm_bits_values bits.
 Proof.
-  rewrite !bits_values_alt. apply flat_map_ext_in'. intros j Hj. apply in_byte_idx in Hj.
-  unfold byte_list. rewrite mget_of_dump by exact Hj. reflexivity.
+  rewrite !bits_values_alt. apply flat_map_ext_in'. intros j Hj. pose proof (proj1 (in_byte_idx j) Hj) as Hj'. clear Hj.
+  unfold byte_list. rewrite mget_of_dump by exact Hj'. reflexivity.
 Qed.
 
 Lemma popsum_dump bits : popsum (bm_mem_of_bytes (map (bm_mget bits) bm_byte_idx)) = popsum bits.
 Proof.
-  unfold popsum. f_equal. apply map_ext_in. intros j Hj. apply in_byte_idx in Hj.
-  rewrite mget_of_dump by exact Hj. reflexivity.
+  unfold popsum. apply (f_equal sumN). apply map_ext_in. intros j Hj. pose proof (proj1 (in_byte_idx j) Hj) as Hj'. clear Hj.
+  rewrite mget_of_dump by exact Hj'. reflexivity.
 Qed.
 
 (* ---------- varintBitmapDecode(varintBitmapEncode(s) ++ tl, len), len >= the encoding ---------- *)
@@ -166,7 +166,7 @@ Proof.
     rewrite dec_enc_u16s by exact Hv.
     rewrite ascending_sorted by exact Hsort.
     eexists. split; [reflexivity|].
-    unfold bm_to_array, bm_iter_all. cbn [bm_c]. rewrite arr_values_rev, arr_of_values_rev.
+    unfold bm_to_array, bm_iter_all. cbn [bm_c]. rewrite !arr_values_rev.
     rewrite rev_involutive. reflexivity.
   - (* bitmap container *)
     destruct Hs as (Hbytes & Hcard).
@@ -208,4 +208,95 @@ Proof.
     unfold bm_lenN at 1 2. rewrite length_le_bytes. cbn [length]. lia.
   - right. rewrite !lenN_app. unfold bm_lenN. rewrite map_length, length_le_bytes.
     pose proof lenN_byte_idx as L. unfold bm_lenN in L. cbn [length]. lia.
+Qed.
+
+(* ---------- EncodeWith(BITMAP) on ANY array: members, container kind, cardinality ---------- *)
+Definition adp_bits_big (s : bm_state) : Prop :=
+  match bm_c s with BmBits _ => 4096 < bm_card s | _ => True end.
+
+Lemma bm_u32_small x : x < 4294967296 -> bm_u32 x = x.
+Proof. intro H. unfold bm_u32. replace (x <? 4294967296) with true by lia. reflexivity. Qed.
+
+Lemma bm_add_bits_big s v : bm_Inv s -> adp_not_runs s -> adp_bits_big s -> adp_bits_big (fst (bm_add s v)).
+Proof.
+  intros Hs Hn Hb. pose proof (inv_card_le s Hs) as Hc.
+  unfold adp_bits_big, adp_not_runs, bm_add in *.
+  destruct (bm_c s) as [R cap|m|runs cap]; [| |contradiction].
+  - unfold bm_add_array. cbv zeta.
+    destruct (0 <=? bm_binary_search R (bm_card s) v)%Z; [exact I|].
+    destruct (4096 <=? bm_card s) eqn:E; [|exact I].
+    cbn [fst bm_c bm_card]. rewrite bm_u32_small by lia. lia.
+  - unfold bm_add_bits. cbv zeta. destruct (snd (bm_bits_set m v)); cbn [fst bm_c bm_card]; [|exact Hb].
+    rewrite bm_u32_small by lia. lia.
+Qed.
+
+Lemma adp_bitmap_fold_any xs : forall s, bm_Inv s -> adp_not_runs s -> adp_bits_big s ->
+  let r := fold_left (fun vb v => if v <? 65536 then fst (bm_add vb (u16 v)) else vb) xs s in
+  bm_Inv r /\ adp_not_runs r /\ adp_bits_big r /\
+  (forall x, In x (bm_abs r) -> In x xs \/ In x (bm_abs s)).
+Proof.
+  induction xs as [|v t IH]; intros s Hs Hn Hb; cbv zeta.
+  - cbn [fold_left]. repeat split; try assumption. intros x Hx. right. exact Hx.
+  - cbn [fold_left]. destruct (v <? 65536) eqn:E.
+    + assert (Hv : v < 65536) by lia. rewrite u16_small by exact Hv.
+      destruct (add_spec s v Hs Hv) as (I1 & M1 & _).
+      destruct (IH (fst (bm_add s v)) I1 (bm_add_not_runs s v Hn) (bm_add_bits_big s v Hs Hn Hb)) as (I2 & N2 & B2 & M2).
+      repeat split; try assumption. intros x Hx. destruct (M2 x Hx) as [A|A].
+      * left. right. exact A.
+      * destruct (proj1 (M1 x) A) as [->|A']; [left; left; reflexivity|right; exact A'].
+    + destruct (IH s Hs Hn Hb) as (I2 & N2 & B2 & M2).
+      repeat split; try assumption. intros x Hx. destruct (M2 x Hx) as [A|A]; [left; right; exact A|right; exact A].
+Qed.
+
+Lemma adp_bitmap_of_any xs :
+  bm_Inv (adp_bitmap_of xs) /\ adp_not_runs (adp_bitmap_of xs) /\ adp_bits_big (adp_bitmap_of xs) /\
+  bm_card (adp_bitmap_of xs) <= N.of_nat (length xs).
+Proof.
+  destruct (adp_bitmap_fold_any xs bm_create inv_create I I) as (A & B & C & D).
+  fold (adp_bitmap_of xs) in *. repeat split; try assumption.
+  rewrite (inv_card _ A). unfold bm_lenN.
+  assert (L : (length (bm_abs (adp_bitmap_of xs)) <= length xs)%nat).
+  { apply NoDup_incl_length; [apply sorted_NoDup; apply (inv_sorted _ A)|].
+    intros x Hx. destruct (D x Hx) as [H|H]; [exact H|]. rewrite abs_create in H. destruct H. }
+  lia.
+Qed.
+
+(* 1 + the encoding <= 21 + 22 count *)
+Lemma adp_bitmap_len xs :
+  N.of_nat (length (bm_encode (adp_bitmap_of xs))) + 1 <= 21 + 22 * N.of_nat (length xs) /\
+  N.of_nat (length (bm_encode (adp_bitmap_of xs))) <= 131077.
+Proof.
+  destruct (adp_bitmap_of_any xs) as (A & B & C & D).
+  pose proof (inv_card_le _ A) as Hc.
+  destruct (adp_bm_encode_len _ A B) as [E|E]; unfold bm_lenN in E; rewrite E; [lia|].
+  unfold adp_bits_big in C. unfold bm_encode in E.
+  destruct (adp_bitmap_of xs) as [card c]. cbn [bm_c bm_card] in *.
+  destruct c as [R cap|bits|runs cap].
+  - destruct A as (Hcard & _).
+    rewrite !app_length, arr_values_rev in E. pose proof (enc_u16s_len (rev R)) as L. unfold bm_lenN in L.
+    rewrite rev_length in L. rewrite length_le_bytes in E. cbn [length] in E. unfold bm_lenN in Hcard. cbn [bm_card] in Hcard. lia.
+  - lia.
+  - contradiction.
+Qed.
+
+(* ---------- the BITMAP case of EncodeWith / Decode ---------- *)
+Lemma adp_encode_with_bitmap xs :
+  adp_encode_with xs 4
+  = AEOk (4 :: bm_encode (adp_bitmap_of xs))
+         (mk_adp_meta 4 (N.of_nat (length xs)) (u64 (N.of_nat (length (bm_encode (adp_bitmap_of xs))) + 1)) None None).
+Proof. unfold adp_encode_with. cbv zeta. rewrite !adp_len_spec. reflexivity. Qed.
+
+Lemma adp_decode_bitmap xs tl cap : StronglySorted N.lt xs -> Forall (fun v => v < 65536) xs ->
+  adp_decode ((4 :: bm_encode (adp_bitmap_of xs)) ++ tl) cap
+  = ADOk (N.min (N.of_nat (length xs)) cap) (firstn (N.to_nat (N.min (N.of_nat (length xs)) cap)) xs) None.
+Proof.
+  intros S HF. destruct (adp_bitmap_of_spec xs HF) as (A & B & _).
+  destruct (adp_bitmap_len xs) as (_ & L).
+  destruct (adp_bm_decode_encode (adp_bitmap_of xs) tl 1048576 A B) as (s' & E & T).
+  { unfold bm_lenN. lia. }
+  unfold adp_decode. cbn [app]. rewrite E. rewrite T, (adp_bitmap_of_sorted xs S HF).
+  rewrite adp_len_spec. rewrite PFORLemmas.takeNp_firstn.
+  destruct (N.of_nat (length xs) <? cap) eqn:C.
+  - rewrite N.min_l by lia. reflexivity.
+  - rewrite N.min_r by lia. reflexivity.
 Qed.
